@@ -3,6 +3,8 @@
 package main
 
 import (
+	"bytes"
+	"crypto/hmac"
 	"crypto/sha256"
 	"math/big"
 	"math/rand"
@@ -208,6 +210,23 @@ func steeredScalars(r *rand.Rand, nRand int) []*big.Int {
 			}
 		}
 	}
+	// ... and much closer to the corners of the cell (within 2^-60, 2^-100, 2^-126 of 1/2): the halves within a few units of their
+	// extreme magnitudes, where a range assertion or a bound constant that is off in a middle digit first bites
+	for _, sh := range []uint{60, 100, 126} {
+		dn := pow2(sh)
+		halfDn := pow2(sh - 1)
+		for _, s1 := range []int64{1, -1} {
+			for _, s2 := range []int64{1, -1} {
+				for t := 0; t < 2; t++ {
+					e1 := new(big.Int).Mul(big.NewInt(s1), add(halfDn, -1-int64(r.Intn(3+60*t))))
+					e2 := new(big.Int).Mul(big.NewInt(s2), add(halfDn, -1-int64(r.Intn(3+60*t))))
+					k1 := new(big.Int).Add(new(big.Int).Mul(e1, glvA1), new(big.Int).Mul(e2, glvA2))
+					k2 := new(big.Int).Add(new(big.Int).Mul(e1, glvB1), new(big.Int).Mul(e2, glvB2))
+					put(new(big.Int).Add(roundDiv(k1, dn), new(big.Int).Mul(roundDiv(k2, dn), lam)))
+				}
+			}
+		}
+	}
 	// rounding bit (bit 383 of s*g) on either side of a flip
 	for _, g := range []*big.Int{glvG1, glvG2} {
 		for _, d := range []int64{1, -1} {
@@ -242,6 +261,11 @@ func steeredScalars(r *rand.Rand, nRand int) []*big.Int {
 			b += pat
 		}
 		put(bi(b))
+	}
+	// scalars whose INTERNAL (Montgomery) form is a limb pattern — {1,0,0,0} is 2^-256 mod n, not 1 (a predicate that reads the limbs
+	// raw takes it for one), single limbs, single bits
+	for _, v := range montPatternValues(r, bigN) {
+		put(v)
 	}
 	return out
 }
@@ -494,6 +518,85 @@ func betaTwinW(r *rand.Rand, beta *big.Int) []*big.Int {
 			}
 			if exact && u.Sign() != 0 {
 				out = append(out, new(big.Int).Mod(new(big.Int).Mul(u, rinv), bigP))
+			}
+		}
+	}
+	return out
+}
+
+// rfc6979First returns the first candidate of the RFC 6979 (HMAC-SHA-256) generator for key d and reduced digest e — an UNTRUSTED
+// convenience used only to steer inputs (digests whose first candidate has a chosen shape); the specification decides.
+func rfc6979First(d, e *big.Int) *big.Int {
+	x, h1 := be32(d)[:], be32(e)[:]
+	mac := func(k []byte, parts ...[]byte) []byte {
+		m := hmac.New(sha256.New, k)
+		for _, p := range parts {
+			m.Write(p)
+		}
+		return m.Sum(nil)
+	}
+	v := bytes.Repeat([]byte{1}, 32)
+	k := make([]byte, 32)
+	k = mac(k, v, []byte{0}, x, h1)
+	v = mac(k, v)
+	k = mac(k, v, []byte{1}, x, h1)
+	v = mac(k, v)
+	v = mac(k, v)
+	return new(big.Int).SetBytes(v)
+}
+
+// xmdSHA256 is expand_message_xmd with SHA-256 (RFC 9380 5.3.1), untrusted, used only to steer messages towards field elements of a
+// chosen shape.
+func xmdSHA256(msg, dst []byte, n int) []byte {
+	if len(dst) > 255 {
+		h := sha256.Sum256(append([]byte("H2C-OVERSIZE-DST-"), dst...))
+		dst = h[:]
+	}
+	dstPrime := append(append([]byte{}, dst...), byte(len(dst)))
+	ell := (n + 31) / 32
+	h := sha256.New()
+	h.Write(make([]byte, 64))
+	h.Write(msg)
+	h.Write([]byte{byte(n >> 8), byte(n), 0})
+	h.Write(dstPrime)
+	b0 := h.Sum(nil)
+	h.Reset()
+	h.Write(b0)
+	h.Write([]byte{1})
+	h.Write(dstPrime)
+	bi := h.Sum(nil)
+	out := append([]byte{}, bi...)
+	for i := 2; i <= ell; i++ {
+		t := make([]byte, 32)
+		for j := range t {
+			t[j] = b0[j] ^ bi[j]
+		}
+		h.Reset()
+		h.Write(t)
+		h.Write([]byte{byte(i)})
+		h.Write(dstPrime)
+		bi = h.Sum(nil)
+		out = append(out, bi...)
+	}
+	return out[:n]
+}
+
+// smallMultipleWindows returns residues v mod p whose INTERNAL (Montgomery) form m satisfies k*m = h*2^256 - (1 + r), 0 <= r < k:
+// the product of the element with the small constant k is as close below a multiple of 2^256 as it gets, for every carry h
+// (a specialised "multiply by a small constant" folds its carry-out h and may lose the carry of that fold).  k = 21 is 3b for
+// secp256k1; 2, 3, 4 and 8 are the other constants the formulas multiply by.
+func smallMultipleWindows(ks []int64) []*big.Int {
+	rinv := new(big.Int).ModInverse(new(big.Int).Mod(big2_256, bigP), bigP)
+	var out []*big.Int
+	for _, k := range ks {
+		for h := int64(1); h <= k; h++ {
+			for _, back := range []int64{1, 1 << 33} { // just below the multiple, and just below it by more than the fold constant
+				m := new(big.Int).Sub(new(big.Int).Mul(big.NewInt(h), big2_256), big.NewInt(back))
+				m.Div(m, big.NewInt(k))
+				if m.Cmp(bigP) >= 0 || m.Sign() == 0 {
+					continue
+				}
+				out = append(out, new(big.Int).Mod(new(big.Int).Mul(m, rinv), bigP))
 			}
 		}
 	}
